@@ -30,6 +30,11 @@ func newStringPrefixFilter(code *syntax.Code) StringPrefixFilter {
 	opts := code.FindOptimizations
 	minRequiredLength := opts.MinRequiredLength
 
+	// The engine is started at the candidate the filter returns, which is also what \G is
+	// bound to: a pattern that tests \G anywhere has to be scanned from the real start.
+	if code.HasOpcode(syntax.Start) {
+		return nil
+	}
 	switch opts.FindMode {
 	case syntax.LeadingString_LeftToRight:
 		return stringIndexPrefixFilter(opts.LeadingPrefix, false, minRequiredLength)
